@@ -129,3 +129,17 @@ def _register():
 
 
 _register()
+
+
+def _mk_refusal(kind):
+    def ob(w):
+        Dx = "Dy" if kind.startswith("identity") else "Dx"
+        h = SP.gen_cond_handle(w, kind, "c", "Rc", "Dy", Dx)
+        p_x, px = SP.gen_pdf(w, "x", "Rx", Dx)
+        w.raises("documented-refusal", (RuntimeError,), lambda: h.call("affine_conditional_transformation", p_x))
+    return ob
+
+
+for _kind in ("full", "identity"):
+    REG.ob(f"{SP.COND_CLS[_kind]}.affine_conditional_transformation/R=(Rc,Rx)/refusal", sorts=["Rc", "Rx", "Dy"] + ([] if _kind == "identity" else ["Dx"]),
+           funcs=[f"conditional.{SP.COND_CLS[_kind]}.affine_conditional_transformation"])(_mk_refusal(_kind))
